@@ -50,8 +50,77 @@ def run_assert(name, args, kwargs=None):
         return {'raised': type(e).__name__ + ': ' + str(e)[:80]}
 
 
+HOSTILE_CODE = '''
+class BadRepr:
+    def __repr__(self):
+        raise RuntimeError("no repr")
+class NonStrRepr:
+    def __repr__(self):
+        return 5
+class ConcatRepr:
+    def __init__(self):
+        self.name = "rex"
+        self.age = 3
+    def __repr__(self):
+        return self.name + self.age
+class BadStr:
+    def __str__(self):
+        raise RuntimeError("no str")
+class BadEq:
+    def __eq__(self, other):
+        raise RuntimeError("no eq")
+    __hash__ = None
+class BadBool:
+    def __bool__(self):
+        raise RuntimeError("no bool")
+class BadLen:
+    def __len__(self):
+        raise RuntimeError("no len")
+KINDS = {'repr': BadRepr, 'nonstr-repr': NonStrRepr, 'concat-repr': ConcatRepr, 'str': BadStr, 'eq': BadEq, 'bool': BadBool, 'len': BadLen}
+def mk(n):
+    return KINDS[n]()
+def box(n):
+    return [KINDS[n]()]
+'''
+
+
+def hostile():
+    """values whose own __repr__ / __str__ / __eq__ / __bool__ / __len__ fail, as results of student calls: every assertion answers"""
+    contextualize_report(HOSTILE_CODE)
+    S.clear_sandbox()
+    S.run()
+    out = []
+    for kind in ('repr', 'nonstr-repr', 'concat-repr', 'str', 'eq', 'bool', 'len'):
+        for name in BIN + UN + INST + ['assert_type', 'assert_not_type']:
+            for shape in ('alone', 'boxed', 'right'):
+                v = S.call('mk' if shape != 'boxed' else 'box', kind)
+                if name in UN:
+                    if shape == 'right':
+                        continue
+                    args = [v]
+                elif name in INST or name in ('assert_type', 'assert_not_type'):
+                    if shape == 'right':
+                        continue
+                    args = [v, int]
+                elif name in ('assert_regex', 'assert_not_regex'):
+                    args = ['a', v]
+                elif name in ('assert_in', 'assert_not_in'):
+                    args = [v, [1, 2]] if shape != 'right' else [1, v]
+                elif name in ('assert_contains_subset', 'assert_not_contains_subset'):
+                    args = [[v], [1, 2]] if shape != 'right' else [[1], v]
+                else:
+                    args = [v, 5] if shape != 'right' else [5, v]
+                rec = run_assert(name, args)
+                rec.update({'kind': kind, 'assertion': name, 'shape': shape})
+                out.append(rec)
+    return out
+
+
 def main():
     data = json.load(sys.stdin)
+    if data.get('hostile'):
+        json.dump({'hostile': hostile()}, open(sys.argv[1], 'w'))
+        return
     contextualize_report(student_code())
     S.clear_sandbox()
     S.run()
